@@ -573,11 +573,14 @@ func (e *Env) sel(x *ESel) *SVal {
 		fa := g.fieldAddr(v, pt.Elem(), idx)
 		fa.Imm = v.Imm
 		ft := st.Field(idx).Type()
-		if isAggregate(ft) && kindOf(ft) == KStruct {
-			// value of nested struct: load it
-			return g.load(e.stateFor(fa), fa, ft)
+		r := g.load(e.stateFor(fa), fa, ft)
+		// heap invariant: every reference stored in the heap existed when it was stored
+		if g.inQuant == 0 && hasRefs(ft) && !isAggregate(ft) {
+			if ver := g.versionOf(e.stateFor(fa), fa, ft); ver != "" {
+				g.addAxiom(g.refFactsVer(e.cur, ver, r))
+			}
 		}
-		return g.load(e.stateFor(fa), fa, ft)
+		return r
 	case KStruct:
 		st := structOf(v.T)
 		idx, _ := fieldIndex(st, x.Name)
@@ -663,8 +666,10 @@ func (e *Env) index(x *EIndex) *SVal {
 			i = g.constVal(tInt, i.Const)
 		}
 		et := v.T.Underlying().(*types.Slice).Elem()
-		if g.inQuant == 0 && i.Const == nil {
-			g.addNamed(i) // index terms of contracts are instantiation candidates
+		if g.inQuant == 0 && i.Const == nil && !elemTwoLevel(et) {
+			// index terms into slices of composite elements are instantiation candidates
+			// (scalar-element reads are tracked precisely by the read log instead)
+			g.addNamed(i)
 		}
 		p := g.sliceElemAddr(v, idx64(i))
 		return g.load(e.cur, p, et)
@@ -771,6 +776,24 @@ func (e *Env) quant(x *EQuant) *SVal {
 			sub.vars[qv.Name] = v
 			g.addNamed(v)
 		}
+		// {hint L(args)}: instances of proved lemmas at the skolem constants, available to this goal only
+		for _, tr := range x.Trig {
+			if c, ok := tr.(*ECall); ok {
+				if id, ok := c.Fun.(*EIdent); ok && id.Name == "hint" {
+					for _, a := range c.Args {
+						h := *sub
+						h.mode, h.pol, h.noInst = 0, 0, true
+						t := h.evalBool(a)
+						if g.curOrigin != "" {
+							if g.privAsms == nil {
+								g.privAsms = map[string][]asmRec{}
+							}
+							g.privAsms[g.curOrigin] = append(g.privAsms[g.curOrigin], asmRec{0, t})
+						}
+					}
+				}
+			}
+		}
 		return mkBool(sub.evalBool(x.Body))
 	}
 	// exists to be proved (or forall that is assumed false): offer ground witnesses
@@ -778,8 +801,13 @@ func (e *Env) quant(x *EQuant) *SVal {
 		srt := g.W.scalarSort(ts[0])
 		var alts []string
 		n := 0
+		_, wantSigned := intInfo(ts[0])
+		wantSigned = wantSigned && kindOf(ts[0]) == KInt
 		for _, cand := range g.named[srt] {
 			if cand.origin != "" && cand.origin != g.curOrigin {
+				continue
+			}
+			if cand.ptr != (kindOf(ts[0]) == KPtr) || cand.signed != wantSigned {
 				continue
 			}
 			if n >= 12 {
@@ -842,6 +870,11 @@ func (e *Env) quant(x *EQuant) *SVal {
 	body := sub.evalBool(x.Body)
 	var pats []string
 	for _, tr := range x.Trig {
+		if c, ok := tr.(*ECall); ok {
+			if id, ok := c.Fun.(*EIdent); ok && id.Name == "hint" {
+				continue
+			}
+		}
 		v := sub.eval(tr)
 		pats = append(pats, v.Term)
 	}
@@ -990,6 +1023,10 @@ func (e *Env) call(x *ECall) *SVal {
 		if pf := g.P.pureFn(e.pkg, id.Name); pf != nil {
 			return e.callPure(pf, x.Args)
 		}
+		// a proved lemma used as a formula: (requires ==> ensures) at these arguments
+		if lm := g.P.Specs.Lemmas[id.Name]; lm != nil {
+			return e.lemmaFormula(lm, x.Args)
+		}
 		// type conversion?
 		if t := e.tryType(id.Name); t != nil {
 			return e.convert(e.eval(x.Args[0]), t)
@@ -1036,6 +1073,37 @@ func (e *Env) call(x *ECall) *SVal {
 	}
 	e.fail("cannot call %s", x.Fun.exprString())
 	return nil
+}
+
+// lemmaFormula: the statement of a lemma at given arguments. The lemma itself is a separate
+// verification unit; every use is recorded so that the property driver checks it too.
+func (e *Env) lemmaFormula(lm *Lemma, args []Expr) *SVal {
+	g := e.g
+	if len(args) != len(lm.Params) {
+		e.fail("lemma %s expects %d arguments", lm.Name, len(lm.Params))
+	}
+	lenv := &Env{g: g, pkg: g.P.typesPkg(lm.PkgPath), vars: map[string]*SVal{}, cur: e.cur, old: e.old, loopPre: e.loopPre, depth: e.depth + 1}
+	for i, a := range args {
+		v := e.eval(a)
+		pt := lenv.resolveType(lm.Params[i].Type)
+		if v.T == nil && v.Const != nil {
+			v = g.constVal(pt, v.Const)
+		}
+		lenv.vars[lm.Params[i].Name] = v
+	}
+	var req, ens []string
+	for _, r := range lm.Requires {
+		req = append(req, lenv.evalBool(r.E))
+	}
+	for _, en := range lm.Ensures {
+		ens = append(ens, lenv.evalBool(en.E))
+	}
+	if g.UsedLemmas == nil {
+		g.UsedLemmas = map[string]bool{}
+	}
+	g.UsedLemmas[lm.Name] = true
+	g.note("lemma used as a hint (proved as its own unit): %s", lm.Name)
+	return mkBool(sImp(sAnd(req...), sAnd(ens...)))
 }
 
 func (e *Env) typeArg(x Expr) types.Type {
